@@ -42,7 +42,10 @@ impl Default for InfoSubset {
 impl InfoSubset {
     pub fn normalize(mut self) -> Self {
         // need to read surface if reading any of one of these forms
-        if self.intersects(InfoSubset::READING_FORM | InfoSubset::NORMALIZED_FORM) {
+        // (a word which is its own dictionary form stores only the reference)
+        if self.intersects(
+            InfoSubset::READING_FORM | InfoSubset::NORMALIZED_FORM | InfoSubset::DIC_FORM_WORD_ID,
+        ) {
             self |= InfoSubset::SURFACE
         }
 
